@@ -95,6 +95,17 @@ func (r *Run) OverBudget() bool {
 	return !r.deadline.IsZero() && time.Now().After(r.deadline)
 }
 
+// SliceDeadline splits the soft time budget evenly over n consecutive pieces of
+// work and returns the instant by which piece i (0-based) has to stop; the zero
+// time when no budget is set. A harness that stops because of it must call Cap.
+func (r *Run) SliceDeadline(i, n int) time.Time {
+	if r.deadline.IsZero() || n <= 0 {
+		return time.Time{}
+	}
+	total := r.deadline.Sub(r.start)
+	return r.start.Add(total * time.Duration(i+1) / time.Duration(n))
+}
+
 // Eval counts n evaluated cases / executions.
 func (r *Run) Eval(n int) { r.mu.Lock(); r.evaluations += int64(n); r.mu.Unlock() }
 
